@@ -290,7 +290,7 @@ def bounded(tier, seed):
             f = run_history([('export', p) for p in combo])
             if f:
                 return n, [{'function': 'txdbus.objects.DBusObjectHandler', 'clause': 'history', 'input': [list(x) for x in [('export', p) for p in combo]], 'detail': f}]
-    for _ in range(400 if tier == 'thorough' else 60):
+    for _ in range(3000 if tier == 'thorough' else 60):
         hist = [rnd.choice(ops) for _ in range(rnd.randrange(2, 10))]
         n += 1
         f = run_history(hist)
@@ -312,7 +312,7 @@ def replay(function, clause, model):
 def run_bounded(tier, seed):
     n, failures = bounded(tier, seed)
     return {'tool': 'export/unexport history enumeration against a reference model (real DBusObjectHandler, fake connection); after every step GetManagedObjects, Introspect and UnknownObject answers at 9 paths incl. prefix-sharing siblings',
-            'bound': 'all export sets of size <= %d over 7 paths; %d random add/remove histories of length 2..9' % (3 if tier == 'thorough' else 2, 400 if tier == 'thorough' else 60),
+            'bound': 'all export sets of size <= %d over 7 paths; %d random add/remove histories of length 2..9' % (3 if tier == 'thorough' else 2, 3000 if tier == 'thorough' else 60),
             'evaluations': n, 'failures': failures}
 
 
